@@ -10,7 +10,7 @@ for p in sorted(obl):
         per[fn] = per.get(fn, 0) + 1
     lines.append("| %s | %s |" % (p, "; ".join("`%s` (%d)" % (f, n) for f, n in sorted(per.items()))))
 lines += ["", "#### Seeded changes", "", "| seed | property | detected by the quick check | first failing obligations |", "|---|---|---|---|"]
-for d in sorted(glob.glob('/verif/seeded/*')):
+for d in sorted(x for x in glob.glob('/verif/seeded/*') if not x.split('/')[-1].startswith('_')):
     m = json.load(open(d + '/meta.json'))
     outs = [re.sub(r'.*replays/[^/]*/', '', l).split('.json')[0].replace('__', '(*').replace('_.', ').', 1) for l in m.get('check_output', []) if 'VIOLATION' in l and '/none.json' not in l]
     lines.append("| %s | %s | %s | %s |" % (os.path.basename(d), m['property'], "yes" if m.get('detected_by_check') else "**no**", "; ".join("`%s`" % o for o in outs[:3]) + (" …" if len(outs) > 3 else "")))
